@@ -277,6 +277,7 @@ class Ctx:
         self.evaluations = 0
         self.distinct = set()
         self.samples = []
+        self._partial_keys = set()
         self.failures = []       # concrete property failures on the implementation: dict(key, what, replay)
         self.broken = []         # broken correspondence / sentinel / proof: dict(what, detail)
         self.notes = {}
@@ -313,6 +314,16 @@ class Ctx:
         """The property itself fails on the implementation for a concrete input (replayable)."""
         alive()
         self.failures.append({"key": key, "what": what, "replay": replay})
+        # written through at once: if the interpreter itself crashes later while driving the code under test, harness/crashed.py still
+        # reports the concrete failures observed up to then (first occurrence of each key)
+        try:
+            if key not in self._partial_keys:
+                self._partial_keys.add(key)
+                os.makedirs(REPLAYS, exist_ok=True)
+                with open(os.path.join(REPLAYS, "%s-partial-%d.jsonl" % (self.pid, os.getpid())), "a") as f:
+                    f.write(json.dumps({"key": key, "what": what, "replay": replay, "seed": self.seed, "tier": self.tier}, default=str) + "\n")
+        except Exception:       # noqa
+            pass
 
     def broke(self, what, detail):
         """A theorem, sentinel or model/implementation correspondence no longer checks."""
@@ -335,6 +346,10 @@ def load_known():
 def finish(ctx, pinfo, gate_hits, build_ok, build_log, trusted_base, rule):
     gen_cleanup()
     os.makedirs(REPLAYS, exist_ok=True)
+    try:
+        os.remove(os.path.join(REPLAYS, "%s-partial-%d.jsonl" % (ctx.pid, os.getpid())))     # the verdict below supersedes the write-through file
+    except OSError:
+        pass
     known = [k for k in load_known() if k["property"] == ctx.pid and k.get("status") == "known"]
     lines, viol = [], 0
     known_hit = {}
@@ -476,7 +491,15 @@ def call_watched(fn, timeout=6.0):
     th.start()
     th.join(timeout)
     if not box:
-        # ask the stuck thread AND every thread started since (the hung call's workers, which may be spinning) to exit
+        # ask the stuck thread AND every thread started since (the hung call's workers, which may be spinning) to exit; tracing is
+        # switched off first (an asynchronous exception delivered inside a frame traced per opcode has crashed CPython 3.12; detsched
+        # installs its tracer anew at the start of every run)
+        try:
+            import sys as _sys
+            if hasattr(_sys, "_settraceallthreads"):
+                _sys._settraceallthreads(None)
+        except Exception:       # noqa
+            pass
         try:
             import ctypes
             for t in _threading.enumerate():
